@@ -4785,9 +4785,16 @@ int main(int argc, char** argv) {
             ephemeralnet::daemon::ControlFields base_fields{{"MANIFEST", manifest_uri},
                                                             {"STREAM", "client"}};
 
-            auto finalize_fetch = [&](const ephemeralnet::daemon::ControlResponse& response) {
+            auto finalize_fetch = [&](const ephemeralnet::daemon::ControlResponse& response) -> bool {
                 const auto reported_size = response.fields.contains("SIZE") ? response.fields.at("SIZE") : "0";
                 if (response.has_payload) {
+                    if (decoded_manifest.has_value()) {
+                        const auto digest = ephemeralnet::crypto::Sha256::digest(
+                            std::span<const std::uint8_t>(response.payload.data(), response.payload.size()));
+                        if (digest != decoded_manifest->chunk_hash) {
+                            return false;
+                        }
+                    }
                     try {
                         std::ofstream out(resolved_output, std::ios::binary | std::ios::trunc);
                         if (!out) {
@@ -4819,6 +4826,7 @@ int main(int argc, char** argv) {
                         std::cout << "Hint: File was written on the daemon host; copy it manually if needed." << std::endl;
                     }
                 }
+                return true;
             };
 
             auto perform_fetch_request = [&](ephemeralnet::daemon::ControlClient& target_client,
@@ -5019,7 +5027,10 @@ int main(int argc, char** argv) {
                         synthetic.payload = *plaintext;
                         synthetic.fields["SIZE"] = std::to_string(plaintext->size());
 
-                        finalize_fetch(synthetic);
+                        if (!finalize_fetch(synthetic)) {
+                            attempt_log.push_back({friendly_label, "Payload does not match the manifest hash"});
+                            return false;
+                        }
                         std::cout << "Direct fetch succeeded via " << endpoint_desc << " (transport)" << std::endl;
                         outcome.success = true;
                         outcome.logs = attempt_log;
@@ -5101,7 +5112,10 @@ int main(int argc, char** argv) {
                         return false;
                     }
 
-                    finalize_fetch(*response);
+                    if (!finalize_fetch(*response)) {
+                        attempt_log.push_back({friendly_label, "Payload does not match the manifest hash"});
+                        return false;
+                    }
                     if (from_fallback) {
                         std::cout << "Fallback fetch succeeded via " << endpoint_desc << std::endl;
                     } else {
@@ -5251,12 +5265,12 @@ int main(int argc, char** argv) {
             std::string local_error;
             const auto local_response = perform_fetch_request(client, base_fields, "Downloading", &local_error);
             if (local_response && local_response->success) {
-                finalize_fetch(*local_response);
-                print_daemon_hint(*local_response);
-                return 0;
-            }
-
-            if (local_response && !local_response->success) {
+                if (finalize_fetch(*local_response)) {
+                    print_daemon_hint(*local_response);
+                    return 0;
+                }
+                local_error = "Daemon returned a payload that does not match the manifest hash";
+            } else if (local_response && !local_response->success) {
                 const auto message_it = local_response->fields.find("MESSAGE");
                 if (message_it != local_response->fields.end() && !message_it->second.empty()) {
                     local_error = message_it->second;
